@@ -719,6 +719,7 @@ struct C06 : World {
       }
       st.frame_bytes.clear();
       bool ok = false;
+      int di_before_midpacket = -1;   // the identifier in force when this packet was begun, if it was changed while the packet was read
       frames_fed++;
       ctx.log("frame %d: %zu lines pts=%llx mask=%x iface=%s di=%02x size=%u..%u rawmode=%d expect=%s (%s)", frames_fed, n, (unsigned long long)pts, mask,
               use_cor ? "cor" : "feed", cfg.di, cfg.min, cfg.max, rawmode, v == V_ACCEPT ? "accept" : v == V_REJECT ? "reject" : "either", reason.c_str());
@@ -776,6 +777,16 @@ struct C06 : World {
             break;
           }
           ctx.count("cor_partial_outputs");
+          // a configuration call between two reads of one packet (a legal order of calls): the packet being handed out
+          // must stay well-formed - its data_identifier the old or the new one, its data units of the length that
+          // identifier demands; following packets carry the new one
+          if (k == 0 && (buf_sel / 6) % 5 == 1) {
+            int d = DI_TABLE[(buf_sel / 30) % NDI];
+            vbi_bool rr; { SutScope ss; rr = vbi_dvb_mux_set_data_identifier(st.mx, (unsigned)d); }
+            ctx.log("set_data_identifier %x in the middle of a packet (%zu bytes handed out) -> %d", d, st.frame_bytes.size(), (int)rr);
+            if ((bool)rr != di_valid(d)) { ctx.fail("oracle:mux-config", "vbi_dvb_mux_set_data_identifier(0x%x) returned %d", d, (int)rr); break; }
+            if (rr && (unsigned)d != cfg.di) { di_before_midpacket = (int)cfg.di; cfg.di = (unsigned)d; ctx.count(st.frame_bytes.size() < 46 ? "cfg_data_identifier_before_pes_header_complete" : "cfg_data_identifier_mid_packet"); }
+          }
           if (sl != sl0 || left != left0) { ctx.fail("oracle:mux-cor-pointer", "vbi_dvb_mux_cor consumed sliced lines (%u -> %u) before the packet was handed out", left0, left); break; }
           if (bl != 0 || wrote == 0) { ctx.fail("oracle:mux-cor-short", "vbi_dvb_mux_cor returned with %u bytes of buffer unused (wrote %zu) although the frame is not finished", bl, wrote); break; }
           wake_transport(); sched.yield();
@@ -811,7 +822,7 @@ struct C06 : World {
       PPes pp;
       if (!parse_pes(pes, pp, err)) { ctx.fail("oracle:pes-syntax", "frame %d: %s", frames_fed, err.c_str()); return false; }
       if (pp.size < cfg.min || pp.size > cfg.max) { ctx.fail("oracle:pes-size", "frame %d: PES packet of %zu bytes, configured range %u..%u", frames_fed, pp.size, cfg.min, cfg.max); return false; }
-      if (pp.data_identifier != cfg.di) { ctx.fail("oracle:pes-data-identifier", "frame %d: data_identifier %02x, configured %02x", frames_fed, pp.data_identifier, cfg.di); return false; }
+      if (pp.data_identifier != cfg.di && (int)pp.data_identifier != di_before_midpacket) { ctx.fail("oracle:pes-data-identifier", "frame %d: data_identifier %02x, configured %02x", frames_fed, pp.data_identifier, cfg.di); return false; }
       if (pp.pts != (pts & PTS_MASK)) { ctx.fail("oracle:pes-pts", "frame %d: PTS %llx encoded, %llx given", frames_fed, (unsigned long long)pp.pts, (unsigned long long)(pts & PTS_MASK)); return false; }
       if (pp.stuffed_inside) ctx.count("stuffing_byte_inside_unit");
       if (!pp.du.empty() && pp.du.back().id == 0xC6 && pp.du.back().npix == 251) {
